@@ -232,12 +232,14 @@ def pattern_cases():
     return name, mod, cfg
 
 
-def replay_pattern(case, sparse):
+def replay_pattern(case, sparse, cplx=False):
     import warnings
     pat = np.array(case["pat"], dtype=bool)
     r = np.random.default_rng(int(np.packbits(pat.ravel()).sum()) + 17)
     A = (r.random(pat.shape) + 0.5) * pat * np.where(r.random(pat.shape) < 0.5, -1, 1)
     A = A + np.diag(np.diag(A)) * 3
+    if cplx:     # generic complex values on the same pattern (neither symmetric nor Hermitian; complex diagonal)
+        A = A * np.exp(1j * (0.3 + 1.2 * r.random(pat.shape)))
     if abs(np.linalg.det(A)) < 1e-3:
         A = A + np.diag(np.diag(pat) * 1.0) * 2
     if abs(np.linalg.det(A)) < 1e-6:
@@ -252,6 +254,8 @@ def replay_pattern(case, sparse):
             return "diagidx", "pattern %s: divided-out dofs %s, specification %s" % (case["pat"], got, sorted(case["diag"]))
         for trans in ("N", "T", "H"):
             b = r.random(3) + 0.5
+            if cplx:
+                b = b + 1j * (r.random(3) - 0.5)
             x = w.solve(b, trans=trans)
             res = np.linalg.norm(op_matrix(A, trans) @ x - b) / np.linalg.norm(b)
             if not res < 1e-6:
@@ -269,7 +273,7 @@ def run(chk, replay_case=None, replay=None):
     replay_case = replay
     if replay_case is not None:
         if "pat" in replay_case:
-            res = replay_pattern(replay_case, replay_case.get("sparse", False))
+            res = replay_pattern(replay_case, replay_case.get("sparse", False), replay_case.get("complex", False))
             chk.case(replay_case)
             if res not in ("ok", None):
                 chk.violation("C06/pattern/" + res[0], res[1], replay_case)
@@ -302,10 +306,11 @@ def run(chk, replay_case=None, replay=None):
     pats = [v[0] for tag, v in r.printed if tag == "CASE"]
     for case in pats:
         for sparse in (False, True):
-            res = replay_pattern(case, sparse)
-            chk.case(dict(case, sparse=sparse), nontrivial=res is not None)
-            if res not in ("ok", None):
-                chk.violation("C06/pattern/" + res[0], res[1], dict(case, sparse=sparse))
+            for cplx in (False, True):
+                res = replay_pattern(case, sparse, cplx)
+                chk.case(dict(case, sparse=sparse, complex=cplx), nontrivial=res is not None)
+                if res not in ("ok", None):
+                    chk.violation("C06/pattern/" + res[0], res[1], dict(case, sparse=sparse, complex=cplx))
     name, mod, cfg = tlc.mc("LDASPattern", dict(N=3, Variant="column_only"), invariants=["DiagSound"])
     r = tlc.run(name, cfg, extra_modules={name: mod}, expect_violation=True)
     if r.violated is None:
